@@ -236,6 +236,13 @@ def run(ctx):
     # place, by replacing the tau_shower section, or by replacing the whole simulation section -- all sequences
     import itertools as _it
 
+    from .. import forms as _forms
+
+    for which, nin in (("taus", 2), ("decay", 4)):
+        for f in _forms.product(nin):
+            ctx.tick(6, ("forms", which, f))
+            for c, e, o in judge_forms(which, f):
+                ctx.violation(c, {"kind": "forms", "which": which, "forms": list(f)}, e, o)
     steps = [(h, f) for h in FRAC_HOWS for f in (0.1, 1.0, 0.25)]
     nfh = 0
     for d in ((1, 2) if ctx.tier == "quick" else (1, 2, 3)):
@@ -247,6 +254,28 @@ def run(ctx):
                 ctx.violation(c, {"kind": "frac_history", "seq": seq}, e, o)
     ctx.cov["etau_frac_histories"] = nfh
     ctx.sample({"part": "B", "version": 3, "etau_frac": 0.5, "logE": float(g2[3, 0]), "beta_rad": float(g2[3, 1]), "u": float(us[5]), "tauEnergy_GeV": float(tE[3])})
+
+
+def judge_forms(which, f):
+    """input forms for Taus.__call__ (angles, log-energies) and EAS.altDec (angle, speed, Lorentz factor, u)"""
+    from nuspacesim.config import NssConfig, Simulation
+    from nuspacesim.simulation.eas_optical.eas import EAS
+    from nuspacesim.simulation.taus.taus import Taus
+
+    from .. import forms
+
+    if which == "taus":
+        t = Taus(NssConfig(simulation=Simulation(tau_shower=Simulation.NuPyPropShower(etau_frac=0.5, table_version="3"))))
+
+        def call(bb, ll):
+            with RngStub(fn=lambda idx, n: np.full(n, 0.37)).installed():
+                return tuple(t(bb, ll))
+
+        return forms.judge(call, [np.array([0.0, 0.001, 0.25, 0.5, 0.7, 1.0]), np.array([7.0, 8.0, 9.0, 10.0, 11.0, 12.0])], tuple(f), what="Taus.__call__")
+    e = EAS(NssConfig())
+    cols = [np.array([0.0, 0.25, 0.5, 0.7, 1.0]), np.array([1.0, 0.5, 0.999, 1.0, 0.0]), np.array([2.0, 1e3, 1e6, 1e9, 1.0]), np.array([0.5, 0.25, 1.0, 0.125, 1.0])]
+    with np.errstate(all="ignore"):
+        return forms.judge(lambda a, b_, c_, d: e.altDec(a, b_, c_, u=d), cols, tuple(f), what="EAS.altDec")
 
 
 FRAC_HOWS = ["set", "section", "simulation"]
@@ -319,6 +348,8 @@ def replay(case):
         return [] if (err <= 1.0 / m and err < prev) else [("mean_decay_length", f"<=1/{m}", err)]
     if k == "frac_history":
         return judge_frac_history(case["seq"])
+    if k == "forms":
+        return judge_forms(case["which"], case["forms"])
     if k == "taus":
         v, _ = judge_taus(case["version"], case["frac"], np.array(case["logE"]), np.array(case["beta"]), case["u"])
         return [(c, e, o) for c, i, e, o in v]
